@@ -13,7 +13,12 @@ for p in sorted(glob.glob(os.path.join(root, 'seeded', '*', 'meta.json')), key=k
 d = os.path.join(root, 'DESIGN.md')
 t = open(d).read()
 a = t.index('| seed | change | needs | outcome / mechanism |')
-b = t.index('### 12.5')
-t = t[:a] + '| seed | change | needs | outcome / mechanism |\n|---|---|---|---|\n' + '\n'.join(rows) + '\n\n' + t[b:]
+# the table ends at the first line after `a` that is not a table row
+lines = t[a:].split('\n')
+k = 0
+while k < len(lines) and lines[k].startswith('|'):
+    k += 1
+b = a + len('\n'.join(lines[:k]))
+t = t[:a] + '| seed | change | needs | outcome / mechanism |\n|---|---|---|---|\n' + '\n'.join(rows) + t[b:]
 open(d, 'w').write(t)
 print(len(rows), 'rows')
